@@ -184,6 +184,15 @@ class Interp:
                     return int(op["int"])
                 except (TypeError, ValueError):
                     return UNK
+            if op.get("item") and "promoted" not in op and self.facts.has(op["item"]) and self.facts.body(op["item"]).kind in ("const", "static") \
+                    and self.depth < 4:
+                self.depth += 1
+                try:
+                    return self.call_body(op["item"], [])
+                except Undecided:
+                    return UNK
+                finally:
+                    self.depth -= 1
             if "promoted" in op and op.get("item"):
                 pn = "%s::{promoted#%d}" % (op["item"], op["promoted"])
                 if self.facts.has(pn):
@@ -361,6 +370,13 @@ class Interp:
             if isinstance(v, Enum) and v.variant in ("Ok", "Err"):
                 return (v.variant == "Ok") == cal.endswith("is_ok")
             raise Undecided("is_ok on %r" % (v,))
+        if re.search(r"std::ops::RangeInclusive::<.*>::new$", cal) and len(a) == 2:
+            return Enum("range_inclusive", None, {"start": a[0], "end": a[1]})
+        if re.search(r"std::ops::RangeInclusive<.*>::contains(::<.*>)?$|RangeInclusive::<.*>::contains(::<.*>)?$", cal) and len(a) == 2:
+            r, x = self.deref(a[0]), self.deref(a[1])
+            if isinstance(r, Enum) and r.adt == "range_inclusive" and all(isinstance(v, int) and not isinstance(v, bool) for v in (r.fields["start"], r.fields["end"], x)):
+                return r.fields["start"] <= x <= r.fields["end"]
+            return UNK
         if re.search(r"std::ops::BitOr(<.*>)?>::bitor$", cal) and len(a) == 2:
             try:
                 return KD(self.kd(a[0]).kind | self.kd(a[1]).kind)
@@ -435,6 +451,8 @@ class Interp:
         if (re.search(r"as std::convert::(Into|From)<.*>>::(into|from)\b", full) or re.search(r"<impl std::convert::From<.*> for .*>::from\b", full)) and len(a) == 1:
             cal = full
             v = a[0]
+            if isinstance(v, int) and not isinstance(v, bool):
+                return v
             to_td = re.search(r"Into<compiler::type_def::TypeDef>|<compiler::type_def::TypeDef as std::convert::From| for compiler::type_def::TypeDef>::from\b", cal)
             to_kd = re.search(r"Into<value::kind::Kind>|<value::kind::Kind as std::convert::From| for value::kind::Kind>::from\b", cal)
             if isinstance(v, KD):
